@@ -2039,7 +2039,7 @@ package ucfg
 //@ sweep
 //@ requires opts.opts != nil
 //@ requires !rvValid(old) || nilableKind(rvKind(old))
-//@ requires hasOld(old) ==> rvKind(old) == 23 && rvLen(old) <= 4611686018427387903
+//@ requires hasOld(old) ==> rvKind(old) == 23
 //@ at-call reifyDoArray requires !hasOld(entry(old)) ==> start == 0 && rvLen(to) == len(arr) && rvver(rvRootOf(to)) == zeroVer()
 //@ at-call reifyDoArray requires hasOld(entry(old)) && policyIs(entry(opts), cfgReplaceValue) ==> start == 0 && rvLen(to) == len(arr) && rvver(rvRootOf(to)) == zeroVer()
 //@ at-call reifyDoArray requires hasOld(entry(old)) && policyIs(entry(opts), cfgArrAppend) && len(arr) + rvLen(entry(old)) < 9223372036854775807 ==> start == rvLen(entry(old)) && rvLen(to) == len(arr) + rvLen(entry(old)) && holdsCopy(rvSlice(to, 0, rvLen(to)), entry(old))
